@@ -146,6 +146,10 @@ func (s *State) get(name, sortStr string) string {
 func (s *State) set(name, sortStr, term string) {
 	s.fc.noteStateSort(name, sortStr)
 	s.fc.recordWrite(name)
+	if len(term) > 60 {
+		s.fc.ctr++
+		term = s.fc.define(fmt.Sprintf("%s@v%d", name, s.fc.ctr), sortStr, term)
+	}
 	s.m[name] = term
 }
 
